@@ -152,7 +152,7 @@ Definition dispatch (s : sexp) : sexp :=
       end
   | L [A 2; hdr; A srt; recs] =>
       match dec_hdr hdr, as_listof dec_wrec recs with
-      | Some h, Some rs => run_c10 h (negb (srt =? 0)) rs
+      | Some h, Some rs => run_c10 h (srt =? 0) rs
       | _, _ => s_bad
       end
   | _ => s_bad
